@@ -30,6 +30,31 @@ def parse_args(pid, argv=None):
     return ap.parse_args(argv)
 
 
+def checked(solver, timeout_ms):
+    """solver.check() with a watchdog: z3 does not always honour its own timeout on mixed
+    UF / nonlinear problems, Z3_interrupt from a timer thread does."""
+    import threading
+    done = threading.Event()
+
+    def fire():
+        if not done.is_set():
+            try:
+                solver.interrupt()
+            except Exception:
+                pass
+    tm = threading.Timer(timeout_ms / 1000.0 + 2.0, fire)
+    tm.daemon = True
+    tm.start()
+    try:
+        try:
+            return solver.check()
+        except z3.Z3Exception:
+            return z3.unknown
+    finally:
+        done.set()
+        tm.cancel()
+
+
 class Check:
     def __init__(self, pid, args, functions_planned=(), sub=False):
         self.sub = sub
@@ -81,6 +106,57 @@ class Check:
         if VERBOSE:
             print('  [%6.2fs] %-8s %s' % (dt, v, name), flush=True)
         model = s.model() if v == 'sat' else None
+        return v, model
+
+    def decide_external(self, name, premises, timeout_s=3):
+        """Satisfiability of the premises by the z3 command-line binary under a HARD wall-clock limit
+        (in-process z3 does not always honour its timeout on mixed UF/nonlinear premises).
+        -> 'sat' | 'unsat' | 'unknown'"""
+        import subprocess
+        s = z3.Solver()
+        for p in premises:
+            s.add(p)
+        smt = s.to_smt2()
+        t = time.time()
+        try:
+            r = subprocess.run(['z3-new', '-T:%d' % timeout_s, '-in'], input=smt, capture_output=True, text=True,
+                               timeout=timeout_s + 5)
+            out = r.stdout.strip().split('\n')[0] if r.stdout.strip() else 'unknown'
+        except (subprocess.TimeoutExpired, FileNotFoundError):
+            out = 'unknown'
+        dt = time.time() - t
+        self.solver_s += dt
+        self.queries += 1
+        if out not in ('sat', 'unsat'):
+            out = 'unknown'
+        if VERBOSE:
+            print('  [%6.2fs] %-8s %s (external)' % (dt, out, name), flush=True)
+        return out
+
+    def decide_cli(self, name, premises, negated_goal, timeout_s=10):
+        """Like decide(), but by the z3 command-line binary under a hard wall-clock limit; the model
+        comes back as {constant name: float or int} (algebraic numbers by their decimal approximation)."""
+        import subprocess
+        s = z3.Solver()
+        for p in premises:
+            s.add(p)
+        s.add(negated_goal)
+        smt = s.to_smt2() + '\n(get-model)\n'
+        t = time.time()
+        try:
+            r = subprocess.run(['z3-new', '-T:%d' % timeout_s, 'pp.decimal=true', 'pp.decimal_precision=30', '-in'],
+                               input=smt, capture_output=True, text=True, timeout=timeout_s + 5)
+            txt = r.stdout
+        except (subprocess.TimeoutExpired, FileNotFoundError):
+            txt = 'unknown'
+        dt = time.time() - t
+        self.solver_s += dt
+        self.queries += 1
+        first = txt.strip().split('\n')[0].strip() if txt.strip() else 'unknown'
+        v = first if first in ('sat', 'unsat') else 'unknown'
+        if VERBOSE:
+            print('  [%6.2fs] %-8s %s (cli)' % (dt, v, name), flush=True)
+        model = parse_cli_model(txt) if v == 'sat' else None
         return v, model
 
     def record(self, name, verdict, detail=None, sample=None):
@@ -254,7 +330,111 @@ def pym_argv(path):
     return argv
 
 
+def parse_cli_model(txt):
+    """{name: number} from the (get-model) output of the z3 binary (0-ary Real/Int constants only)."""
+    import re as _re
+    out = {}
+    for m in _re.finditer(r'\(define-fun\s+(\S+)\s+\(\)\s+(Real|Int)\s+(.*?)\)\s*(?=\(define-fun|\)\s*$|$)', txt, _re.S):
+        name, sort, body = m.group(1), m.group(2), m.group(3).strip()
+        name = name.strip('|')
+        val = _eval_sexpr(body)
+        if val is not None:
+            out[name] = int(val) if sort == 'Int' else val
+    return out
+
+
+def _eval_sexpr(b):
+    import re as _re
+    b = b.replace('?', '').strip()
+    toks = _re.findall(r'\(|\)|[^\s()]+', b)
+    pos = [0]
+
+    def ev():
+        t = toks[pos[0]]
+        pos[0] += 1
+        if t == '(':
+            op = toks[pos[0]]
+            pos[0] += 1
+            args = []
+            while toks[pos[0]] != ')':
+                args.append(ev())
+            pos[0] += 1
+            if any(a is None for a in args):
+                return None
+            if op == '-':
+                return -args[0] if len(args) == 1 else args[0] - args[1]
+            if op == '/':
+                return args[0] / args[1]
+            if op == '+':
+                return sum(args)
+            if op == '*':
+                r = 1.0
+                for a in args:
+                    r *= a
+                return r
+            return None
+        try:
+            return float(t)
+        except ValueError:
+            return None
+    try:
+        return ev()
+    except (IndexError, ZeroDivisionError):
+        return None
+
+
+class _DictModel:
+    """Adapter: evaluate symbolic inputs under a {name: value} model from the command-line solver."""
+
+    def __init__(self, d):
+        self.d = d
+
+    def value(self, x):
+        if isinstance(x, core.SR):
+            return self._t(x.n) / self._t(x.den)
+        if isinstance(x, core.SC):
+            re_, im_ = x.re, x.im
+            return complex(self.value(re_), self.value(im_))
+        if isinstance(x, core.SI):
+            return int(round(self._t(x.t)))
+        return x
+
+    def _t(self, t):
+        if z3.is_rational_value(t):
+            return t.numerator_as_long() / t.denominator_as_long()
+        if z3.is_int_value(t):
+            return float(t.as_long())
+        if z3.is_const(t) and t.decl().kind() == z3.Z3_OP_UNINTERPRETED:
+            return float(self.d.get(str(t), 0.0))
+        k = t.decl().kind()
+        ch = [self._t(c) for c in t.children()]
+        if k == z3.Z3_OP_ADD:
+            return sum(ch)
+        if k == z3.Z3_OP_MUL:
+            r = 1.0
+            for c in ch:
+                r *= c
+            return r
+        if k == z3.Z3_OP_SUB:
+            return ch[0] - sum(ch[1:])
+        if k == z3.Z3_OP_UMINUS:
+            return -ch[0]
+        if k == z3.Z3_OP_TO_REAL:
+            return ch[0]
+        raise symx.HarnessError('cannot evaluate %s under a command-line model' % t)
+
+
 def model_inputs(model, inputs):
+    if isinstance(model, dict):
+        dm = _DictModel(model)
+        out = {}
+        for k, v in inputs.items():
+            out[k] = [dm.value(e) for e in v] if isinstance(v, (list, tuple)) else dm.value(v)
+        return out
+    return _model_inputs(model, inputs)
+
+
+def _model_inputs(model, inputs):
     """Concrete Python values of the symbolic inputs under a model."""
     out = {}
     for k, v in inputs.items():
@@ -267,7 +447,7 @@ def model_inputs(model, inputs):
 
 def prove_paths(ck, name, fn, goals, replay, max_paths=500, assumptions=(), expect_exc=(),
                 timeout_ms=None, wall_s=None, tol_goals=None, sqrt_mode='fresh', twin_timeout_ms=3000,
-                fork_policy='check', prefer_true=()):
+                fork_policy='check', prefer_true=(), external_twin=False, abstract_mul=False):
     """Explore fn symbolically, and for every feasible path and every goal ask the solver for a
     counterexample.  goals(out) -> [(goal_name, z3 Bool)];  replay(concrete_inputs, goal_name,
     out) -> None (holds on the real code => spurious) or (key, what, replay_dict).
@@ -295,13 +475,25 @@ def prove_paths(ck, name, fn, goals, replay, max_paths=500, assumptions=(), expe
         finally:
             core.set_ctx(None)
         prem = p.ctx.pc + p.ctx.axioms
-        v, _ = ck.decide(name + ':twin', prem, z3.BoolVal(True), twin_timeout_ms)
+        if abstract_mul:
+            from symx import poly as _poly
+            _cache = {}
+            prem = [_poly.abstract_mul(x, _cache) for x in prem]
+            goal_list = [(gn, _poly.abstract_mul(gl, _cache)) for gn, gl in goal_list]
+        cli = external_twin
+        if external_twin:
+            v = ck.decide_external(name + ':twin', prem, max(1, twin_timeout_ms // 1000))
+        else:
+            v, _ = ck.decide(name + ':twin', prem, z3.BoolVal(True), twin_timeout_ms)
         if v == 'unsat':
             continue            # infeasible path (can happen after unknown feasibility answers)
         reach += 1
         for gname, goal in goal_list:
             oname = '%s/path%d/%s' % (name, pi, gname)
-            v, model = ck.decide(oname, prem, z3.Not(goal), timeout_ms)
+            if cli:
+                v, model = ck.decide_cli(oname, prem, z3.Not(goal), max(1, (timeout_ms or (10000 if ck.tier == 'quick' else 60000)) // 1000))
+            else:
+                v, model = ck.decide(oname, prem, z3.Not(goal), timeout_ms)
             stage = 'exact'
             if v == 'sat' and gname in tg:
                 v2, model2 = ck.decide(oname + ':tol', prem, z3.Not(tg[gname]), timeout_ms)
